@@ -93,7 +93,8 @@ static char *ares_qcache_calc_key(const ares_dns_record_t *dnsrec)
       goto fail; /* LCOV_EXCL_LINE: OutOfMemory */
     }
 
-    status = ares_buf_append_str(buf, ares_dns_rec_type_tostr(qtype));
+    /* Numeric: every type without a name of its own prints as "UNKNOWN" */
+    status = ares_buf_append_num_dec(buf, (size_t)qtype, 0);
     if (status != ARES_SUCCESS) {
       goto fail; /* LCOV_EXCL_LINE: OutOfMemory */
     }
